@@ -126,16 +126,32 @@ package tree
 //@   ensures result == nil ==> rootHas(t) == upd(old(rootHas(t)), root.Index, true) && rootHash(t) == upd(old(rootHash(t)), root.Index, root.Hash) && rootBlock(t) == upd(old(rootBlock(t)), root.Index, root.BlockNum) && rootPos(t) == upd(old(rootPos(t)), root.Index, root.BlockPosition)
 //@   ensures result != nil ==> rootHas(t) == old(rootHas(t)) && rootHash(t) == old(rootHash(t)) && rootBlock(t) == old(rootBlock(t)) && rootPos(t) == old(rootPos(t))
 
+// The INSERT into the rht table (hash is its PRIMARY KEY, tree/migrations/tree0001.sql) as seen from storeNodes:
+// SQL semantics assumed (A5) for this call site. A row is added iff the statement succeeds; a primary-key conflict
+// is reported iff a row with that hash exists, and leaves the table (and the transaction) as it was.
+//@ spec fn isUniqueErr(e int) bool
+//@ extern github.com/russross/meddler.Insert@tree.(*Tree).storeNodes (db, table, src)
+//@   requires typeIs(src, *types.TreeNode)
+//@   modifies rhtHas(caller.t), rhtL(caller.t), rhtR(caller.t), stmtFail
+//@   ensures stmtFail == old(stmtFail) + ite(result == nil || isUniqueErr(result), 0, 1)
+//@   ensures result == nil ==> !old(rhtHas(caller.t))[cast(src, *types.TreeNode).Hash] && rhtHas(caller.t) == upd(old(rhtHas(caller.t)), cast(src, *types.TreeNode).Hash, true) && rhtL(caller.t) == upd(old(rhtL(caller.t)), cast(src, *types.TreeNode).Hash, cast(src, *types.TreeNode).Left) && rhtR(caller.t) == upd(old(rhtR(caller.t)), cast(src, *types.TreeNode).Hash, cast(src, *types.TreeNode).Right)
+//@   ensures (result != nil && isUniqueErr(result)) ==> old(rhtHas(caller.t))[cast(src, *types.TreeNode).Hash]
+//@   ensures result != nil ==> rhtHas(caller.t) == old(rhtHas(caller.t)) && rhtL(caller.t) == old(rhtL(caller.t)) && rhtR(caller.t) == old(rhtR(caller.t))
+
 //@ func (t *Tree) storeNodes
-//@   props C01 C07 C08 C11
-//@   trusted
+//@   props C01 C04 C07 C08 C11
 //@   requires t != nil
 //@   requires forall(k, 0, len(nodes), nodes[k].Hash == H(nodes[k].Left, nodes[k].Right))
+//@   requires forall(x, Hash, rhtHas(t)[x] ==> x == H(rhtL(t)[x], rhtR(t)[x]))
 //@   modifies rhtHas(t), rhtL(t), rhtR(t), stmtFail
-//@   ensures stmtFail == old(stmtFail) + ite(result == nil, 0, 1)
-//@   ensures forall(x, Hash, old(rhtHas(t))[x] ==> rhtHas(t)[x] && rhtL(t)[x] == old(rhtL(t))[x] && rhtR(t)[x] == old(rhtR(t))[x])
-//@   ensures forall(x, Hash, rhtHas(t)[x] ==> x == H(rhtL(t)[x], rhtR(t)[x]))
-//@   ensures result == nil ==> forall(k, 0, len(nodes), rhtHas(t)[nodes[k].Hash] && rhtL(t)[nodes[k].Hash] == nodes[k].Left && rhtR(t)[nodes[k].Hash] == nodes[k].Right)
+//@   ensures[fault-counted] stmtFail == old(stmtFail) + ite(result == nil, 0, 1)
+//@   ensures[rows-only-added] forall(x, Hash, old(rhtHas(t))[x] ==> rhtHas(t)[x] && rhtL(t)[x] == old(rhtL(t))[x] && rhtR(t)[x] == old(rhtR(t))[x])
+//@   ensures[content-addressed] forall(x, Hash, rhtHas(t)[x] ==> x == H(rhtL(t)[x], rhtR(t)[x]))
+//@   ensures[every-node-stored] result == nil ==> forall(k, 0, len(nodes), rhtHas(t)[nodes[k].Hash] && rhtL(t)[nodes[k].Hash] == nodes[k].Left && rhtR(t)[nodes[k].Hash] == nodes[k].Right)
+//@   loop 0 invariant 0 <= i && i <= len(nodes) && stmtFail == old(stmtFail)
+//@   loop 0 invariant forall(x, Hash, old(rhtHas(t))[x] ==> rhtHas(t)[x] && rhtL(t)[x] == old(rhtL(t))[x] && rhtR(t)[x] == old(rhtR(t))[x])
+//@   loop 0 invariant forall(x, Hash, rhtHas(t)[x] ==> x == H(rhtL(t)[x], rhtR(t)[x]))
+//@   loop 0 invariant forall(k, 0, i, rhtHas(t)[nodes[k].Hash] && rhtL(t)[nodes[k].Hash] == nodes[k].Left && rhtR(t)[nodes[k].Hash] == nodes[k].Right)
 
 //@ func (t *Tree) getLastRootWithTx
 //@   props C01 C07
